@@ -89,6 +89,9 @@ func raceScenario(s *Sim, params map[string]string) {
 		cl.F = FaultCfg{Stall: 1000, StallReset: 2 * time.Second, APIs: map[int16]bool{0: true}, Until: 3 * time.Second}
 	}
 	program := Pick(t, "cfg", "writer", "reader", "group", "conn", "client", "balancers", "codecs", "batch")
+	if t.Intn("wide", 12) == 0 {
+		program = "widetopics"
+	}
 	if v, ok := params["program"]; ok {
 		program = v
 	}
@@ -526,6 +529,42 @@ func raceScenario(s *Sim, params map[string]string) {
 			})
 		}
 
+	case "widetopics":
+		// several goroutines write for the first time, at the same moment, to
+		// topics wider than anything the process has seen: the Writer's
+		// process-wide partition list cache grows under their feet
+		warm := t.Range("cfg", 130, 390)
+		cl.AddTopic("wwarm", warm, func(int) int32 { return cl.Brokers[0].ID })
+		nw := t.Range("cfg", 2, 6)
+		for k := 0; k < nw; k++ {
+			cl.AddTopic(fmt.Sprintf("wbig%d", k), warm+1+t.Intn("cfg", 400), func(int) int32 { return cl.Brokers[0].ID })
+		}
+		tr := &kafka.Transport{Dial: n.Dialer("race-wide"), ClientID: "race", DialTimeout: 2 * time.Second, MetadataTTL: 5 * time.Second}
+		var bal kafka.Balancer = &kafka.LeastBytes{}
+		if t.Intn("cfg", 2) == 0 {
+			bal = &kafka.RoundRobin{}
+		}
+		w := &kafka.Writer{Addr: kafka.TCP(addr), Transport: tr, Balancer: bal, BatchSize: 1, BatchTimeout: time.Millisecond, RequiredAcks: kafka.RequireOne, MaxAttempts: 1,
+			WriteTimeout: 2 * time.Second, ReadTimeout: 2 * time.Second, Logger: logf, ErrorLogger: logf}
+		start := make(chan struct{})
+		s.Go("warm", func() {
+			ctx, cancel := context.WithTimeout(context.Background(), 3*time.Second)
+			w.WriteMessages(ctx, kafka.Message{Topic: "wwarm", Value: []byte("v")})
+			cancel()
+			ops.Add(1)
+			close(start)
+		})
+		for k := 0; k < nw; k++ {
+			k := k
+			s.Go(fmt.Sprintf("wide%d", k), func() {
+				<-start
+				ctx, cancel := context.WithTimeout(context.Background(), 3*time.Second)
+				w.WriteMessages(ctx, kafka.Message{Topic: fmt.Sprintf("wbig%d", k), Value: []byte("v")})
+				cancel()
+				ops.Add(1)
+			})
+		}
+		cleanup = append(cleanup, func() { w.Close(); tr.CloseIdleConnections() })
 	case "codecs":
 		na := t.Range("cfg", 2, 5)
 		for a := 0; a < na; a++ {
